@@ -121,7 +121,26 @@ def lake_build(targets, timeout=3000):
 
 def theorem_names(pid):
     """fully qualified names of the theorems in Props/<pid>.lean (namespace tracking by `namespace X` / `end X`)"""
-    path = os.path.join(LEAN, 'PdbVerif', 'Props', f'{pid}.lean')
+    names = []
+    for path in props_files(pid):
+        names += theorem_names_of(path)
+    return names
+
+
+def props_files(pid):
+    """Props/<pid>.lean and, when present, Props/<pid>K.lean (ties of translated kernels to the models)"""
+    out = [os.path.join(LEAN, 'PdbVerif', 'Props', f'{pid}.lean')]
+    k = os.path.join(LEAN, 'PdbVerif', 'Props', f'{pid}K.lean')
+    if os.path.exists(k):
+        out.append(k)
+    return out
+
+
+def props_modules(pid):
+    return ['PdbVerif.Props.' + os.path.basename(p)[:-5] for p in props_files(pid)]
+
+
+def theorem_names_of(path):
     names, ns = [], []
     for line in open(path):
         m = re.match(r'\s*namespace\s+(\S+)', line)
@@ -158,7 +177,8 @@ def run_audit(pid, cluster=None):
     """#print axioms for every theorem of Props/<pid>; forbidden-token grep over /verif/lean"""
     names = theorem_names(pid)
     audit_path = os.path.join(LEAN, 'PdbVerif', 'Audit', f'{pid}.lean')
-    text = f'/- GENERATED by the check: axiom audit of every theorem in Props/{pid}.lean -/\nimport PdbVerif.Props.{pid}\n' + \
+    text = f'/- GENERATED by the check: axiom audit of every theorem in Props/{pid}.lean (and Props/{pid}K.lean) -/\n' + \
+           ''.join(f'import {m}\n' for m in props_modules(pid)) + \
            ''.join(f'#print axioms {n}\n' for n in names)
     old = open(audit_path).read() if os.path.exists(audit_path) else None
     if old != text:
@@ -180,7 +200,7 @@ def run_audit(pid, cluster=None):
             bad.append((n, ['<no axiom report>']))
     # forbidden tokens outside comments, in every file the property's theorems and its drivers import (transitively)
     hits = []
-    roots = [f'PdbVerif.Props.{pid}'] + [f'PdbVerif.Driver.Main{c}' for c in (cluster or '')]
+    roots = props_modules(pid) + [f'PdbVerif.Driver.Main{c}' for c in (cluster or '')]
     for path in sorted(import_closure(roots)):
         hits += forbidden_hits(path)
     return {'theorems': names, 'axioms': res, 'bad': bad, 'forbidden': hits, 'ok': p.returncode == 0 and not bad and not hits,
